@@ -108,10 +108,10 @@ func (w *World) sharingScan() {
 			w.probe("shared-backing-unflagged")
 			hit := false
 			if !ra.c.NeedCOW {
-				hit = w.probeWrite(ra.slot, ra.c.Key, rb.slot, w.interferenceTag())
+				hit = w.probeWrite(ra.slot, ra.c.Key, rb.slot, w.interTag(ra.slot, rb.slot))
 			}
 			if !hit && !rb.c.NeedCOW {
-				hit = w.probeWrite(rb.slot, rb.c.Key, ra.slot, w.interferenceTag())
+				hit = w.probeWrite(rb.slot, rb.c.Key, ra.slot, w.interTag(ra.slot, rb.slot))
 			}
 			if hit {
 				return // objects were rebuilt; pointers in refs are stale
@@ -154,7 +154,7 @@ func (w *World) selfShareProbe(x, y chunkRef) bool {
 	}
 	base := uint32(x.c.Key) << 16
 	hit := false
-	tag := w.curTag + "+C02"
+	tag := w.provTag(x.slot, w.curTag+"+C02")
 	pan := w.try(tag, func() {
 		m2 := o.M.Clone()
 		var undo func()
@@ -304,14 +304,15 @@ func (w *World) selfOverlapProbe(a, b chunkRef) bool {
 	}
 	m2 := o.M.Clone()
 	hit := false
-	pan := w.try(w.curTag+"+C02", func() {
+	stag := w.provTag(a.slot, w.curTag+"+C02")
+	pan := w.try(stag, func() {
 		for i := len(add) - 1; i >= 0; i-- {
 			o.BM.Add(add[i])
 			m2.Add(add[i])
 		}
 		if ok, d := eq32(o.BM, m2); !ok {
 			hit = true
-			w.fail(w.curTag+"+C02", "self-aliasing", "growing one chunk of a bitmap overwrote another chunk of the same bitmap",
+			w.fail(stag, "self-aliasing", "growing one chunk of a bitmap overwrote another chunk of the same bitmap",
 				fmt.Sprintf("after %s, chunks %#x and %#x of slot %d (%s) overlap in memory; adding %d values to the first corrupted the bitmap: %s", w.curOp, a.c.Key, b.c.Key, a.slot, o.Prov, len(add), d))
 		}
 		for _, v := range add {
